@@ -75,11 +75,18 @@ setter("nixio.entity.Entity.type.setter", "type", "Entity", "typ", "is_str(typ)"
        extra_raises={"AttributeError": ("is_none(typ)", "prop")})
 
 TS_OK = "(is_str(attr(obj(self), '{0}')) or is_bytes(attr(obj(self), '{0}')))"
-for which in ("created_at", "updated_at"):
+REG.contract(
+    "nixio.entity.Entity.created_at", props=["C19", "C02", "C14"], params=dict(self=Obj("Entity")), result=Dyn,
+    requires=["obj(self) != 0", TS_OK.format("created_at") + " or is_none(dec(attr(obj(self), 'created_at')))"],
+    # the stored second; None exactly when no creation time is stored (what the validator reports as `date is not set`)
+    ensures=[("get", "result == ite_(is_none(dec(attr(obj(self), 'created_at'))), boxed(None), boxed(ts_parse(attr(obj(self), 'created_at'))))",
+              "prop")], prop_clauses=["get"])
+for which in ("updated_at",):
     REG.contract(
         "nixio.entity.Entity.%s" % which, props=["C19", "C02"], params=dict(self=Obj("Entity")), result=Int,
         requires=[TS_OK.format(which)],
         ensures=[("get", "result == ts_parse(attr(obj(self), '%s'))" % which, "prop")], prop_clauses=["get"])
+for which in ("created_at", "updated_at"):
     REG.contract(
         "nixio.entity.Entity.force_%s" % which, props=["C19", "C02", "C12"],
         params=dict(self=Obj("Entity"), time=Dyn),
